@@ -345,7 +345,7 @@ func decString(ds []Decision) string {
 
 func (e *Engine) newState(sol *Solver, prefix []Decision, cfg *Config) *State {
 	return &State{
-		eng: e, sol: sol, prefix: prefix, cfg: cfg,
+		eng: e, sol: sol, prefix: prefix, cfg: cfg, mapOrderInstance: -1,
 		bind: map[string]*Term{}, symW: map[string]uint8{}, nameCount: map[string]int{},
 		globals: map[*ssa.Global]*Value{}, covers: map[string]bool{},
 		fnCount: map[*ssa.Function]int64{}, stubs: map[string]int{},
